@@ -143,23 +143,21 @@ fn approve_case(n: usize) -> (bool, bool, bool) {
     let env = Env::default();
     let _h = shim::fresh_host();
     let mut messages: Vec<Message> = Vec::new(&env);
-    let m0 = sym_message();
-    let m1 = sym_message();
-    if n >= 1 {
-        messages.push_back(m0.clone());
-    }
-    if n >= 2 {
-        messages.push_back(m1.clone());
+    let ms = [sym_message(), sym_message(), sym_message()];
+    let mut i = 0;
+    while i < n {
+        messages.push_back(ms[i].clone());
+        i += 1;
     }
     let proof = symbolic_proof();
 
     let r = AxelarGateway::approve_messages(env.clone(), messages.clone(), proof.clone());
 
     let dh = spec_approve_data_hash(&env, &messages);
-    // --- C01: the verdict comes from validate_proof over exactly this batch, before any effect
+    // --- C01: the verdict comes from validate_proof over exactly this batch
     assert!(
         shim::n_calls() == 1 && shim::internal_called("auth::validate_proof", &(dh, proof.clone())),
-        "OBL C01.approve_digest_binds_batch: validate_proof is asked about keccak(xdr((ApproveMessages, exactly this batch))) and this proof"
+        "OBL C01.approve_digest_binds_batch: validate_proof is asked (once) about keccak(xdr((ApproveMessages, exactly this batch))) and this proof"
     );
     assert!(dh != spec_rotate_data_hash(&env, &WeightedSigners::symbolic()), "OBL C01.command_kinds_separated: an approval digest is never a rotation digest");
     let vp = unsafe { VP_RESULT };
@@ -167,36 +165,60 @@ fn approve_case(n: usize) -> (bool, bool, bool) {
         Ok(()) => {
             assert!(matches!(vp, Some(Ok(_))), "OBL C01.approve_only_with_valid_proof: approvals are recorded only if validate_proof accepted");
             assert!(n >= 1, "OBL C01.empty_batch_rejected");
-            // --- C02: per-message step, in order, including an in-batch duplicate
-            let k0 = approval_key(&m0.source_chain, &m0.message_id);
-            let s0 = status_pre(&k0);
-            let fresh0 = s0 == MessageApprovalValue::NotApproved;
-            let after0 = if fresh0 { spec_approval(&env, &m0) } else { s0.clone() };
-            if n == 1 {
-                assert!(status_post(&k0) == after0, "OBL C02.approve_step_state: an unknown id becomes Approved(hash of the message); a known id keeps its record");
-                assert!(
-                    if fresh0 { shim::n_events() == 1 && shim::event_is(0, &(Symbol::new(&env, "message_approved"), m0.clone()), &()) } else { shim::n_events() == 0 },
-                    "OBL C02.approve_step_event: exactly one message_approved event per newly approved id, none for a known id"
-                );
-                assert!(pers().changed_only(&[Words::of(&k0)]) && inst().n_changed() == 0, "OBL C02.approve_frame");
-            } else {
-                let k1 = approval_key(&m1.source_chain, &m1.message_id);
-                let same = m0.source_chain == m1.source_chain && m0.message_id == m1.message_id;
-                let s1 = if same { after0.clone() } else { status_pre(&k1) };
-                let fresh1 = s1 == MessageApprovalValue::NotApproved;
-                let after1 = if fresh1 { spec_approval(&env, &m1) } else { s1.clone() };
-                assert!(
-                    status_post(&k1) == after1 && (same || status_post(&k0) == after0),
-                    "OBL C02.approve_step_state: an unknown id becomes Approved(hash of the message); a known id (also one approved earlier in the same batch) keeps its record"
-                );
-                let expected_events = fresh0 as usize + fresh1 as usize;
-                let ev0_ok = !fresh0 || shim::event_is(0, &(Symbol::new(&env, "message_approved"), m0.clone()), &());
-                let ev1_ok = !fresh1 || shim::event_is(fresh0 as usize, &(Symbol::new(&env, "message_approved"), m1.clone()), &());
-                assert!(shim::n_events() == expected_events && ev0_ok && ev1_ok, "OBL C02.approve_step_event: exactly one message_approved event per newly approved id, in batch order, none for a known id");
-                assert!(pers().changed_only(&[Words::of(&k0), Words::of(&k1)]) && inst().n_changed() == 0, "OBL C02.approve_frame");
-                return (true, same && fresh0, !same && fresh0 && fresh1);
+            // --- C02: per-message step, in batch order, as a fold over the batch (spec written here):
+            //     state of an id = its pre-state unless an earlier message of the batch had the same id
+            let keys = [approval_key(&ms[0].source_chain, &ms[0].message_id), approval_key(&ms[1].source_chain, &ms[1].message_id), approval_key(&ms[2].source_chain, &ms[2].message_id)];
+            let mut after: [MessageApprovalValue; 3] = [MessageApprovalValue::NotApproved, MessageApprovalValue::NotApproved, MessageApprovalValue::NotApproved];
+            let mut fresh = [false, false, false];
+            let mut k = 0;
+            while k < n {
+                // latest earlier message with the same (source chain, message id), if any
+                let mut cur = status_pre(&keys[k]);
+                let mut j = 0;
+                while j < k {
+                    if ms[j].source_chain == ms[k].source_chain && ms[j].message_id == ms[k].message_id {
+                        cur = after[j].clone();
+                    }
+                    j += 1;
+                }
+                fresh[k] = cur == MessageApprovalValue::NotApproved;
+                after[k] = if fresh[k] { spec_approval(&env, &ms[k]) } else { cur };
+                k += 1;
             }
-            (true, false, false)
+            // final state of each id = the `after` of its last occurrence
+            let mut state_ok = true;
+            let mut k = 0;
+            while k < n {
+                let mut last = true;
+                let mut j = k + 1;
+                while j < n {
+                    if ms[j].source_chain == ms[k].source_chain && ms[j].message_id == ms[k].message_id {
+                        last = false;
+                    }
+                    j += 1;
+                }
+                if last && status_post(&keys[k]) != after[k] {
+                    state_ok = false;
+                }
+                k += 1;
+            }
+            assert!(state_ok, "OBL C02.approve_step_state: an unknown id becomes Approved(hash of the message); a known id (also one approved earlier in the same batch) keeps its record");
+            let mut expected_events = 0;
+            let mut events_ok = true;
+            let mut k = 0;
+            while k < n {
+                if fresh[k] {
+                    if !shim::event_is(expected_events, &(Symbol::new(&env, "message_approved"), ms[k].clone()), &()) {
+                        events_ok = false;
+                    }
+                    expected_events += 1;
+                }
+                k += 1;
+            }
+            assert!(shim::n_events() == expected_events && events_ok, "OBL C02.approve_step_event: exactly one message_approved event per newly approved id, in batch order, none for a known id");
+            assert!(pers().changed_only(&[Words::of(&keys[0]), Words::of(&keys[1]), Words::of(&keys[2])]) && inst().n_changed() == 0, "OBL C02.approve_frame");
+            let same01 = n >= 2 && ms[0].source_chain == ms[1].source_chain && ms[0].message_id == ms[1].message_id;
+            (true, same01 && fresh[0], n >= 2 && !same01 && fresh[0] && fresh[1])
         }
         Err(e) => {
             assert!(
@@ -338,3 +360,74 @@ fn c06_gateway_constructor() {
 soroban_sdk::harness_ownable!(AxelarGateway, c06_gateway_transfer_ownership);
 soroban_sdk::harness_operatable!(AxelarGateway, c06_gateway_transfer_operatorship);
 soroban_sdk::harness_upgradable!(AxelarGateway, ContractError, c15_gateway_upgrade, c15_gateway_migrate);
+
+// ------------------------------------------------------------------------------------------------
+// C15  axelar_soroban_std::interfaces::migrate with a custom migration (the generic function behind
+// every derived `migrate`): the custom migration runs exactly once, and only while the window is open
+// ------------------------------------------------------------------------------------------------
+static mut MIGRATION_RUNS: u32 = 0;
+static mut WINDOW_OPEN_AT_RUN: bool = false;
+#[kani::proof]
+fn c15_std_migrate_custom_migration() {
+    let env = Env::default();
+    let _h = shim::fresh_host();
+    let r = interfaces::migrate::<AxelarGateway>(&env, || unsafe {
+        MIGRATION_RUNS += 1;
+        WINDOW_OPEN_AT_RUN = inst().post_has(&MIGRATING_KEY);
+    });
+    let open = inst().pre_has(&MIGRATING_KEY);
+    let runs = unsafe { MIGRATION_RUNS };
+    match r {
+        Ok(()) => {
+            assert!(open && runs == 1 && unsafe { WINDOW_OPEN_AT_RUN }, "OBL C15.custom_migration_runs_once_in_window: the custom migration runs exactly once, while the window is still open");
+            assert!(!inst().post_has(&MIGRATING_KEY), "OBL C15.std_migrate_closes_window");
+            kani::cover!(true, "COVER std migrate ok");
+        }
+        Err(_) => {
+            assert!(!open && runs == 0, "OBL C15.custom_migration_not_run_when_closed: without a preceding upgrade the migration does not run at all");
+            kani::cover!(true, "COVER std migrate err");
+        }
+    }
+}
+
+// thorough tier: larger batches / more initial sets
+#[kani::proof]
+#[kani::stub(crate::auth::validate_proof, validate_proof_contract)]
+fn c01_approve_messages_n3_bounded() {
+    let (ok, _, _) = approve_case(3);
+    kani::cover!(ok, "COVER approve n3 ok");
+    kani::cover!(!ok, "COVER approve n3 err");
+}
+
+/// a minimal upgradable contract whose version differs from every crate's in the workspace: the event of
+/// the generic `migrate` must carry the *contract's* version
+pub struct VersionProbe;
+impl interfaces::OwnableInterface for VersionProbe {
+    fn owner(env: &Env) -> Address {
+        interfaces::owner(env)
+    }
+    fn transfer_ownership(env: &Env, new_owner: Address) {
+        interfaces::transfer_ownership::<Self>(env, new_owner);
+    }
+}
+impl interfaces::UpgradableInterface for VersionProbe {
+    fn version(env: &Env) -> String {
+        String::from_str(env, "9.9.9-probe")
+    }
+    fn upgrade(env: &Env, new_wasm_hash: BytesN<32>) {
+        interfaces::upgrade::<Self>(env, new_wasm_hash);
+    }
+}
+#[kani::proof]
+fn c15_std_migrate_announces_contract_version() {
+    let env = Env::default();
+    let _h = shim::fresh_host();
+    let r = interfaces::migrate::<VersionProbe>(&env, || {});
+    if r.is_ok() {
+        assert!(
+            shim::n_events() == 1 && shim::event_is(0, &(soroban_sdk::symbol_short!("upgraded"),), &(String::from_str(&env, "9.9.9-probe"),)),
+            "OBL C15.migrate_announces_contract_version: the `upgraded` event carries the migrating contract's own version()"
+        );
+        kani::cover!(true, "COVER version probe ok");
+    }
+}
